@@ -240,6 +240,9 @@ From V Require Import Model.HourlyDoc Proofs.HourlyDocProofs.
      hourly_to_doc s           to_dict() as a JSON tree; None = it raises
      hourly_from_doc paths d   from_dict(d) as coded; None = it raises; paths = the float-typed settings fields (generated)
      hourly_from_doc_before_c3a9d07e   the reader that called .items() on a null edge-bin map
+     hourly_from_doc_by_train_features a reader that pairs the stored scaler statistics with the names in
+                               settings.train_features order (regression witness, seeded change C01-2)
+     feature_scaler_of s name  the (location, scale) the scalers apply to the column of that feature
      inputs_of s               exactly the fields the prediction path reads (incl. timezone guard, disqualification gate)
      coerce paths st           pydantic's re-validation of the settings tree: an int in a float-typed field becomes a float;
                                validated s := it changes nothing (true of every settings object a constructor validated,
@@ -318,6 +321,19 @@ Theorem C01_hourly_edge_keys_restored : forall s d n, wf_hourly s -> hourly_to_d
 Proof. exact (hourly_edge_keys_restored_l hpaths). Qed.
 Print Assumptions C01_hourly_edge_keys_restored.
 
+(* every feature column gets its OWN scaler statistics back: the pair at the position of its name in _ts_features
+   (the sorted order the scalers were fitted in), whatever the order of settings.train_features *)
+Theorem C01_hourly_scaler_by_name : forall s d name, wf_hourly s -> hourly_to_doc s = Some d ->
+  exists s', hourly_from_doc hpaths d = Some s' /\ feature_scaler_of s' name = feature_scaler_of s name.
+Proof. exact (hourly_scaler_restored_l hpaths). Qed.
+Print Assumptions C01_hourly_scaler_by_name.
+
+(* looking the stored entries up by name is harmless only along the order they were written in *)
+Theorem C01_hourly_name_lookup_same_order : forall fs : list (string * json),
+  NoDup (map fst fs) -> reorder (map fst fs) fs = Some fs.
+Proof. exact reorder_same_order. Qed.
+Print Assumptions C01_hourly_name_lookup_same_order.
+
 (* witnesses *)
 Definition h_settings_ok : json :=
   JObj [("train_features", JArr [JStr "temperature"]); ("temperature_bin", JObj [("bin_width", JNum 12%float)])].
@@ -390,6 +406,33 @@ Proof.
   vm_compute in H. discriminate H.
 Qed.
 Print Assumptions C01_regression_int_default_refuted.
+
+(* regression witness (seeded change C01-2): a solar model whose settings list the features as ghi, temperature while
+   the model (and its scalers, and the stored ts_features / feature_scaler) use the sorted order temperature, ghi.
+   A reader that takes the stored statistics by name ALONG settings.train_features hands the GHI statistics to the
+   temperature column; the reader as coded does not. *)
+Definition h_state_solar : hourly_state :=
+  {| hs_settings := JObj [("train_features", JArr [JStr "ghi"; JStr "temperature"])];
+     hs_clusters := [(1, 0, 0)]%Z; hs_bin_edges := [neg_infinity; infinity]; hs_edge_coeffs := None;
+     hs_ts_features := ["temperature"; "ghi"]; hs_cat_features := ["temporal_cluster_0"];
+     hs_loc := [55%float; 200%float]; hs_scale := [16%float; 250%float]; hs_y := (1.5%float, 0.25%float);
+     hs_coef := [[0.5%float]]; hs_intercept := [0.125%float]; hs_metrics := JObj [];
+     hs_warnings := []; hs_dq := []; hs_error := JObj []; hs_tz := "America/Chicago"; hs_version := "1.2.3" |}.
+
+Theorem C01_regression_scaler_by_settings_order_refuted :
+  feature_scaler_of h_state_solar "temperature" = Some (55%float, 16%float) /\
+  exists d, hourly_to_doc h_state_solar = Some d /\
+    (exists s', hourly_from_doc hpaths d = Some s' /\
+                feature_scaler_of s' "temperature" = Some (55%float, 16%float) /\
+                feature_scaler_of s' "ghi" = Some (200%float, 250%float)) /\
+    (exists s', hourly_from_doc_by_train_features hpaths d = Some s' /\
+                feature_scaler_of s' "temperature" = Some (200%float, 250%float)).
+Proof.
+  split; [reflexivity|]. eexists. split; [reflexivity|]. split.
+  - eexists. split; [vm_compute; reflexivity|]. split; reflexivity.
+  - eexists. split; [vm_compute; reflexivity|]. reflexivity.
+Qed.
+Print Assumptions C01_regression_scaler_by_settings_order_refuted.
 
 (* ================================================================== CalTRACK hourly *)
 From V Require Import Model.CalTrackDoc Proofs.CalTrackDocProofs.
